@@ -359,6 +359,13 @@ class _Exh:
         return f"{self.n}x{self.m} rewards in {{{','.join(str(x) for x in self.values)}}}^{self.n * self.m} x {self.mask_desc}"
 
 
+class _Unsharded:
+    """Seed view that is identical on every shard (the plan must be the same everywhere)."""
+
+    def __init__(self, ctx):
+        self.seed, self.shard = ctx.seed, 0
+
+
 def _exh_plan(ctx):
     small = [(n, m) for n in range(1, 7) for m in range(1, 7) if n * m <= 6]
     plan = []
@@ -376,26 +383,34 @@ def _exh_plan(ctx):
         for n, m in small:
             plan.append(_Exh(n, m, (-2, -1, 0, 1, 2), None, "all masks"))
         plan.append(_Exh(3, 3, (0, 1, 2), None, "all masks"))
-        plan.append(_Exh(3, 3, (-1, 0, 1), None, "all masks"))
+        sm = _structured_masks(3, 3)
+        plan.append(_Exh(3, 3, (-1, 0, 1), sm, f"{len(sm)} structured masks"))
         for n, m in ((2, 4), (4, 2)):
             plan.append(_Exh(n, m, (0, 1, 2), None, "all masks"))
-        for n, m in ((3, 4), (4, 3)):
-            plan.append(_Exh(n, m, (0, 1), None, "all masks"))
+        plan.append(_Exh(3, 4, (0, 1), None, "all masks"))
+        rr = ctx.__class__.pyrng(_Unsharded(ctx), "masks43")
+        sm = _structured_masks(4, 3)
+        extra = [x for x in (rr.getrandbits(12) for _ in range(512)) if x not in set(sm)]
+        sm = sm + sorted(set(extra))
+        plan.append(_Exh(4, 3, (0, 1), sm, f"{len(sm)} masks (structured + seed-chosen random ones)"))
         sm = _structured_masks(4, 4)
         plan.append(_Exh(4, 4, (0, 1), sm, f"{len(sm)} structured masks (full, empty, one cell hidden/only, one row/column hidden/only, diagonals, checkerboards, triangles)"))
     return plan
 
 
-def run_exhaustive(ctx, frac_budget):
+def run_exhaustive(ctx):
     pols = {p: _make(p, 12345) for p in POLS}
     munk, greedy, allv, rnd = (pols[p].calculate for p in POLS)
     BOOL = np.dtype(bool)
     plan = _exh_plan(ctx)
     total = sum(b.size() for b in plan)
+    rnd_every = 8 if ctx.quick else 16
+    rel_every = 61 if ctx.quick else 211
     ctx.note("exhaustive_subspace",
-             "COMPLETE enumeration, Munkres + greedy + all-visible policy on every (reward matrix, mask) problem (random policy on every 8th, "
-             "relabelling on every 61st): " + "; ".join(b.describe() for b in plan) + f"  = {total} problems in total over all shards")
-    deadline_left = BUDGET_S[ctx.tier] * (1.0 - frac_budget)
+             f"COMPLETE enumeration, Munkres + greedy + all-visible policy on every (reward matrix, mask) problem (random policy on every {rnd_every}th, "
+             f"relabelling on every {rel_every}th): " + "; ".join(b.describe() for b in plan) + f"  = {total} problems in total over all shards")
+    deadline_left = BUDGET_S[ctx.tier] * 0.08   # the plan has a fixed size; only an (over)loaded machine gets here
+    n_fast = 0
     cnt = {"visible_only": 0, "sensor_at_most_one": 0, "target_at_most_one": 0, "munkres_optimal": 0, "munkres_masked_value": 0,
            "greedy_argmax": 0, "allvisible_exact": 0, "random_valid": 0, "wellformed": 0}
     blk = -1
@@ -464,20 +479,14 @@ def run_exhaustive(ctx, frac_budget):
                             n_reading_a += 1
                     if not (ok_m and ok_g and ok_a):
                         slow = tuple(p for p, okx in zip(POLS[:3], (ok_m, ok_g, ok_a)) if not okx)
-                    cnt["wellformed"] += 3
-                    cnt["visible_only"] += 3
-                    cnt["sensor_at_most_one"] += 2
-                    cnt["target_at_most_one"] += 1
-                    cnt["munkres_optimal"] += 1
-                    cnt["greedy_argmax"] += 1
-                    cnt["allvisible_exact"] += 1
+                    n_fast += 1
                 if slow:
                     before = sum(ctx.viol_counts.values())
                     for p in slow:
                         check_decision(ctx, p, R, V, kind="decision", seed=12345, origin="exhaustive")
                     if sum(ctx.viol_counts.values()) == before:
                         ctx.inconclusive_because(f"fast and general oracle disagree on {flat} mask {v} shape {shp}")
-                if (blk + v) % 8 == 0:
+                if (blk + v) % rnd_every == 0:
                     try:
                         Dr = rnd(R, V)
                         b = Dr.tobytes()
@@ -495,7 +504,7 @@ def run_exhaustive(ctx, frac_budget):
                             judge(ctx, "random", R, V, Dr, wit)
                         else:
                             check_decision(ctx, "random", R, V, seed=12345, origin="exhaustive")
-                if len(perms) > 1 and (blk * 7 + v) % 61 == 0:
+                if len(perms) > 1 and (blk * 7 + v) % rel_every == 0:
                     perm_cycle += 1
                     p, q = perms[(perm_cycle * 5 + 1) % len(perms)]
                     for pol in POLS[:3]:
@@ -506,6 +515,9 @@ def run_exhaustive(ctx, frac_budget):
                 ctx.sample({"exhaustive_block": {"shape": [n, m], "rewards": list(flat), "masks": B.mask_desc}})
         if not complete:
             break
+    for k, mult in (("wellformed", 3), ("visible_only", 3), ("sensor_at_most_one", 2), ("target_at_most_one", 1), ("munkres_optimal", 1),
+                    ("greedy_argmax", 1), ("allvisible_exact", 1)):
+        cnt[k] += mult * n_fast
     for k, x in cnt.items():
         if x:
             ctx.mon(k, x)
@@ -1007,12 +1019,12 @@ def run(ctx):
     # 2. rewards
     run_rewards(ctx, ctx.scale(2400, 160_000), reserve_s=budget * 0.8)
     lap("rewards")
-    # 3. exhaustive small scope (the heart)
-    run_exhaustive(ctx, frac_budget=0.75)
-    lap("exhaustive")
-    # 4. random larger problems with what is left
-    run_random(ctx, ctx.scale(2400, 160_000), reserve_s=budget * 0.12)
+    # 3. random larger problems (fixed number of cases)
+    run_random(ctx, ctx.scale(2400, 160_000), reserve_s=budget * 0.5)
     lap("random")
+    # 4. exhaustive small scope (the heart; fixed plan, must be completed)
+    run_exhaustive(ctx)
+    lap("exhaustive")
 
 
 def replay(ctx, w):
